@@ -20,6 +20,8 @@ import (
 type vLifeMsg struct {
 	s, j int
 	boom bool
+	slow bool
+	hold bool
 }
 
 type vLifeH struct {
@@ -27,6 +29,7 @@ type vLifeH struct {
 	log     []string
 	inc     int
 	release chan struct{}
+	holdCh  chan struct{}
 	first   bool
 }
 
@@ -53,6 +56,12 @@ func (r *vLifeRecv) Receive(c *Context) {
 			snd = c.Sender().ID
 		}
 		h.add(fmt.Sprintf("R%d:m%d.%d<%s", r.inc, m.s, m.j, snd))
+		if m.hold {
+			<-h.holdCh // parked until every sender has finished: everything sent meanwhile piles up behind this message
+		}
+		if m.slow {
+			time.Sleep(time.Millisecond) // lets a backlog build up: the ring wraps and grows while the actor is busy
+		}
 		if m.boom {
 			panic("scripted crash")
 		}
@@ -71,7 +80,7 @@ func runLife(t testing.TB, plan []string, spare int, inbox int, stop string) str
 	if err != nil {
 		t.Fatal(err)
 	}
-	h := &vLifeH{release: make(chan struct{})}
+	h := &vLifeH{release: make(chan struct{}), holdCh: make(chan struct{})}
 	booms := 0
 	for _, p := range plan {
 		booms += strings.Count(p, "b")
@@ -92,7 +101,7 @@ func runLife(t testing.TB, plan []string, spare int, inbox int, stop string) str
 				self = NewPID(e.address, "snd"+strconv.Itoa(s))
 			}
 			for j, ch := range p {
-				e.SendWithSender(pidWant, vLifeMsg{s, j, ch == 'b'}, self)
+				e.SendWithSender(pidWant, vLifeMsg{s, j, ch == 'b', ch == 'z', ch == 'h'}, self)
 				if j%3 == 2 {
 					time.Sleep(200 * time.Microsecond)
 				}
@@ -124,6 +133,7 @@ func runLife(t testing.TB, plan []string, spare int, inbox int, stop string) str
 		return "SPAWN-HANG"
 	}
 	wg.Wait()
+	close(h.holdCh)
 	res := "done"
 	var done <-chan struct{}
 	if stop == "stop" {
@@ -156,7 +166,7 @@ func runLife(t testing.TB, plan []string, spare int, inbox int, stop string) str
 		res = "HANG"
 	}
 	// a send after the context is done must be a dead letter, not a delivery
-	e.Send(pid, vLifeMsg{99, 0, false})
+	e.Send(pid, vLifeMsg{99, 0, false, false, false})
 	time.Sleep(2 * time.Millisecond)
 	h.mu.Lock()
 	defer h.mu.Unlock()
@@ -208,12 +218,19 @@ func TestVerifLife(t *testing.T) {
 			for j := 0; j < m; j++ {
 				if rr.Chance(1, 12) {
 					sb.WriteByte('b')
+				} else if rr.Chance(1, 10) {
+					sb.WriteByte('z')
 				} else {
 					sb.WriteByte('o')
 				}
 			}
-			plan = append(plan, sb.String())
+			p := sb.String()
+			if s == 0 && rr.Chance(1, 2) && len(p) > 2 { // park the actor on one of the first sender's messages
+				at := 1 + rr.Intn(len(p)-1)
+				p = p[:at] + "h" + p[at+1:]
+			}
+			plan = append(plan, p)
 		}
-		emit(fmt.Sprintf("g%d", i), plan, rr.Intn(2), vgen.Pick(rr, []int{1, 2, 4, 1024}), vgen.Pick(rr, []string{"poison", "poison", "stop"}))
+		emit(fmt.Sprintf("g%d", i), plan, rr.Intn(2), vgen.Pick(rr, []int{1, 2, 3, 4, 5, 1024}), vgen.Pick(rr, []string{"poison", "poison", "stop"}))
 	}
 }
